@@ -138,6 +138,7 @@ func ParseFlags(params []string, args *Arguments) (*FlagsT, []string, error) {
 	)
 
 	for i = range params {
+		aliasHops := 0
 	scanFlags:
 		switch {
 		case ignoreFlags:
@@ -148,6 +149,11 @@ func ParseFlags(params []string, args *Arguments) (*FlagsT, []string, error) {
 			case args.AllowAdditional && params[i] == "--":
 				ignoreFlags = true
 			case strings.HasPrefix(args.Flags[params[i]], "-"):
+				// an alias cannot need more hops than there are flags unless it loops
+				aliasHops++
+				if aliasHops > len(args.Flags) {
+					return nil, nil, fmt.Errorf("%s: flag alias loops back on itself: `%s`", invalidParameters, params[i])
+				}
 				params[i] = args.Flags[params[i]]
 				goto scanFlags
 			case args.Flags[params[i]] == types.Boolean:
